@@ -45,7 +45,12 @@ def parseObj (j : Json) : R GObj := do
     | tj => (← jlist tj).mapM fun t => do
       let a ← jlist t
       return (← Driver.ArgStore.parseKey (← jidx a 0), ← (← jlist (← jidx a 1)).mapM jnat)
-  return { kind := kind, ty := ty, bk := bk, sig := sig, children := ch, tags := tags }
+  let dfl ← match jgetD j "dfl" .null with
+    | .null => pure []
+    | dj => (← jlist dj).mapM fun c => do
+      let a ← jlist c
+      return (← parsePElem (← jidx a 0), ← parseGVal (← jidx a 1))
+  return { kind := kind, ty := ty, bk := bk, sig := sig, children := ch, defaults := dfl, tags := tags }
 
 def gvalJson : GVal → Json
   | .atom t => mkObj [("a", .str t)]
